@@ -85,7 +85,7 @@ func newLexer(env *ExecEnv, r io.RuneScanner) *lexer {
 }
 
 func (l *lexer) Lex(lval *yySymType) int {
-	verifPoint(1)
+	verifPoint(1, l.cancel)
 	select {
 	case <-l.cancel:
 		// an error has been reported; the rest of the input is not evaluated
@@ -94,9 +94,11 @@ func (l *lexer) Lex(lval *yySymType) int {
 	}
 	switch tok := (<-l.token).(type) {
 	case token:
+		verifPoint(2, l.cancel)
 		lval.expr.s = tok.val
 		return tok.typ
 	case int:
+		verifPoint(2, l.cancel)
 		lval.op = ops[tok]
 		return tok
 	case lexError:
@@ -107,7 +109,7 @@ func (l *lexer) Lex(lval *yySymType) int {
 
 func (l *lexer) run() {
 	defer func() {
-		verifPoint(8)
+		verifPoint(8, l.cancel)
 		close(l.token)
 		close(l.done)
 
@@ -366,12 +368,13 @@ func (l *lexer) emit(typ int) {
 }
 
 func (l *lexer) send(tok interface{}) {
-	verifPoint(3)
+	verifPoint(3, l.cancel)
 	select {
 	case l.token <- tok:
 	case <-l.cancel:
 		panic(bailout)
 	}
+	verifPoint(4, l.cancel)
 }
 
 func (l *lexer) read() (rune, error) {
@@ -385,7 +388,7 @@ func (l *lexer) unread() {
 
 // wait stops the lexer goroutine and waits for it to exit.
 func (l *lexer) wait() {
-	verifPoint(9)
+	verifPoint(9, l.cancel)
 	l.mu.Lock()
 	select {
 	case <-l.cancel:
@@ -397,7 +400,7 @@ func (l *lexer) wait() {
 }
 
 func (l *lexer) Error(s string) {
-	verifPoint(7)
+	verifPoint(7, l.cancel)
 	l.mu.Lock()
 	defer l.mu.Unlock()
 
